@@ -60,6 +60,14 @@ def run(ctx):
     trues = [bi for bi, si, s in ic.assigns() if s["place"]["l"] == 0 and norm(ic.rv_origin(s["rv"]), g) == ("int", 1)]
     okt = bool(trues) and all(any(a[0] == "variant" and a[2] == 0 and is_call(a[1], "Iterator::next") for a in ic.facts_at(bi)) for bi in trues)
     ctx.require(okt, "T3-canonical-true-after-exhaustion", ic.name, "return true", "`true` only after every start was compared", "is_canonical can return true before all starts were compared")
+    crf = ctx.body("fpgroups::cosets::compare_renumbered_from")
+    ctx.scan([crf])
+    subs = [(bi, si) for bi, si, s in crf.assigns() if s["rv"]["k"] == "binop" and s["rv"]["op"] in ("Sub", "SubWithOverflow")
+            and contains(norm(crf.rv_origin(s["rv"]), g), lambda x: isinstance(x, tuple) and x and x[0] == "call" and x[1].endswith("CosetTable::get"))]
+    ctx.floor("entry comparisons in compare_renumbered_from", len(subs), 1)
+    for bi, si in subs[:1]:
+        every_iteration_reaches(ctx, "T3-no-skipped-entry", crf, bi, "(row, letter) loop->nval - oval", "some table entry (row, letter) is skipped in the comparison of the re-based table with the original: "
+                                "an undecidable or larger comparison can be turned into 'smaller', canonical partial tables are pruned and conjugacy classes are lost")
     for bi, t in pc.calls(exact="fpgroups::cosets::derived_table"):
         every_iteration_reaches(ctx, "T3-no-skipped-position", pc, bi, "pos-loop->derived_table", "some target row is skipped: subgroups are missed")
     for bi, t in dt.calls(exact="fpgroups::cosets::scan_both_ways"):
